@@ -253,7 +253,7 @@ class GeventExecModel(ExecModel):
 
     @property
     def socket(self):
-        import gevent
+        import gevent.socket
 
         return gevent.socket
 
